@@ -102,7 +102,8 @@ def build_case(cid, rng, dynamic, force_async=False, no_send=False, probes=False
         if "::" not in tname:
             L.append("pub struct %s;" % tname)
         at = (t.async_trait + "\n") if t.async_trait else ""
-        L.append("#[::entrait::entrait%s] /*@impl_%s*/\n%simpl TrImpl for %s {" % ("(ref)" if dynamic else "", tname.replace("::", "_"), at, tname))
+        # (dynamic blocks are written `ref`, or with the older spelling `dyn`)
+        L.append("#[::entrait::entrait%s] /*@impl_%s*/\n%simpl TrImpl for %s {" % (rng.choice(["(ref)", "(ref)", "(dyn)"]) if dynamic else "", tname.replace("::", "_"), at, tname))
         for m in t.methods:
             k = rng.randint(0, len(helpers))
             hs = rng.sample(helpers, k)
